@@ -307,6 +307,8 @@ impl ForwardedStreamSink {
 
         if (100..200).contains(&response.status.as_u16()) {
             state.respond.send_intermediate_response(response)?;
+            // the rest of the segment is the next response, not back-pressure
+            self.fake_unsent = !tail.is_empty();
             return Ok(tail);
         }
 
